@@ -18,7 +18,9 @@ def gen_watch_graph(rng):
     for i, t in enumerate(names):
         prods = rng.sample(names[:i], min(i, rng.choice([0, 1, 1, 2])))
         deps = [p for p in names[:i] if p not in prods and rng.random() < 0.2]
-        T[t] = {'kind': 'build', 'own_input': rng.random() < 0.85 or not prods, 'producers': prods, 'deps': deps}
+        T[t] = {'kind': 'build', 'own_input': rng.random() < 0.85 or not prods, 'producers': prods, 'deps': deps,
+                # the input is declared as the file itself rather than its directory (an atomic save replaces the inode)
+                'input_file': rng.random() < 0.4}
     if rng.random() < 0.4:
         prods = rng.sample(names, min(len(names), rng.choice([0, 1])))
         T['svc'] = {'kind': 'service', 'own_input': True, 'producers': prods, 'deps': []}
@@ -63,7 +65,7 @@ class WatchProject:
             if s['own_input']:
                 os.makedirs(os.path.join(d, 'in', t))
                 self.set_version(t, 1, log=False)
-                inp.append('paths: [in/%s]' % t)
+                inp.append('paths: [in/%s/v.txt]' % t if s.get('input_file') else 'paths: [in/%s]' % t)
                 reads.append('$(cat in/%s/v.txt)' % t)
             for p in s['producers']:
                 inp.append('%s.output' % p)
@@ -462,6 +464,9 @@ def filter_scenario(rng, n_ops=10, tag='wf', ops=None):
     open(os.path.join(d, 'src', 'notes.md'), 'w').write('n0\n')
     os.makedirs(os.path.join(d, 'docs'))
     open(os.path.join(d, 'docs', 'guide.md'), 'w').write('g0\n')
+    os.makedirs(os.path.join(d, 'conf'))
+    open(os.path.join(d, 'conf', 'settings.ini'), 'w').write('s0\n')
+    open(os.path.join(d, 'conf', 'other.ini'), 'w').write('o0\n')
     # `filt` lists the directory src twice, under two different extension filters (and docs under the second one only): a
     # change selected by EITHER resource is relevant
     res = ['      - paths: [src]\n        extensions: [txt]\n', '      - paths: [src, docs]\n        extensions: [md]\n']
@@ -470,11 +475,13 @@ def filter_scenario(rng, n_ops=10, tag='wf', ops=None):
     with open(os.path.join(d, 'zinoma.yml'), 'w') as f:
         f.write('targets:\n  filt:\n    input:\n' + ''.join(res) +
                 '    build: echo "start filt $$" >> %s\n'
-                '  anyf:\n    input:\n      - paths: [any]\n    build: echo "start anyf $$" >> %s\n' % (trace, trace))
+                '  anyf:\n    input:\n      - paths: [any]\n    build: echo "start anyf $$" >> %s\n'
+                # `onef` declares ONE FILE (conf/settings.ini), not its directory: the file next to it is not an input
+                '  onef:\n    input:\n      - paths: [conf/settings.ini]\n    build: echo "start onef $$" >> %s\n' % (trace, trace, trace))
     e = dict(os.environ)
     e.pop('ZINOMA_VERIF', None)
     errf = open(os.path.join(d, 'stderr'), 'w+')
-    proc = subprocess.Popen([vf.ZINOMA, '--watch', 'filt', 'anyf'], cwd=d, env=e, stdout=errf, stderr=subprocess.STDOUT,
+    proc = subprocess.Popen([vf.ZINOMA, '--watch', 'filt', 'anyf', 'onef'], cwd=d, env=e, stdout=errf, stderr=subprocess.STDOUT,
                             start_new_session=True, preexec_fn=vf.reset_signals)
     V = {}
     log = []
@@ -493,28 +500,29 @@ def filter_scenario(rng, n_ops=10, tag='wf', ops=None):
         return runs(t) >= n
 
     def quiet(seconds):
-        c0 = (runs('filt'), runs('anyf'))
+        c0 = (runs('filt'), runs('anyf'), runs('onef'))
         t0 = time.time()
         while time.time() - t0 < seconds:
             time.sleep(0.05)
-            c1 = (runs('filt'), runs('anyf'))
+            c1 = (runs('filt'), runs('anyf'), runs('onef'))
             if c1 != c0:
                 c0 = c1
                 t0 = time.time()
         return c0
     try:
-        if not (wait_runs('filt', 1, 10) and wait_runs('anyf', 1, 10)):
-            V.setdefault('C16', []).append('initial pass did not run both targets')
+        if not (wait_runs('filt', 1, 10) and wait_runs('anyf', 1, 10) and wait_runs('onef', 1, 10)):
+            V.setdefault('C16', []).append('initial pass did not run the three targets')
         quiet(1.0)
         seq = 0
         relevant_ops = ['modify', 'create', 'rename_over', 'move_in', 'rename_away', 'delete', 'modify_sub', 'nonutf8_then_modify',
-                        'any_modify', 'any_create_tmpname_not', 'any_nonutf8', 'modify_md', 'modify_docs_md', 'modify', 'modify_md']
+                        'any_modify', 'any_create_tmpname_not', 'any_nonutf8', 'modify_md', 'modify_docs_md', 'modify', 'modify_md',
+                        'file_modify', 'file_rename_over', 'file_rename_over', 'file_modify']
         irrelevant_ops = ['other_ext', 'tilde', 'swp', 'zinoma_dir', 'outside', 'dat_rename', 'any_tilde', 'any_swp', 'any_zinoma',
-                          'docs_txt']
+                          'docs_txt', 'file_sibling']
         for opi in range(len(ops) if ops else n_ops):
             seq += 1
             op = ops[opi] if ops else rng.choice(relevant_ops if rng.random() < 0.55 else irrelevant_ops)
-            before = (runs('filt'), runs('anyf'))
+            before = (runs('filt'), runs('anyf'), runs('onef'))
             target = None          # which target must run
             src = os.path.join(d, 'src')
             if op == 'modify':
@@ -538,17 +546,26 @@ def filter_scenario(rng, n_ops=10, tag='wf', ops=None):
             elif op == 'rename_away':
                 p = os.path.join(src, 'away%d.txt' % seq)
                 open(p, 'w').write('x\n')
-                wait_runs('filt', before[0] + 1, 5); quiet(0.6); before = (runs('filt'), runs('anyf'))
+                wait_runs('filt', before[0] + 1, 5); quiet(0.6); before = (runs('filt'), runs('anyf'), runs('onef'))
                 os.replace(p, os.path.join(src, 'away%d.bak' % seq)); target = 'filt'
             elif op == 'delete':
                 p = os.path.join(src, 'del%d.txt' % seq)
                 open(p, 'w').write('x\n')
-                wait_runs('filt', before[0] + 1, 5); quiet(0.6); before = (runs('filt'), runs('anyf'))
+                wait_runs('filt', before[0] + 1, 5); quiet(0.6); before = (runs('filt'), runs('anyf'), runs('onef'))
                 os.remove(p); target = 'filt'
             elif op == 'nonutf8_then_modify':
                 open(os.path.join(src.encode(), b'caf\xe9-\xff\xfe.dat'), 'w').write('x\n')
-                quiet(0.6); before = (runs('filt'), runs('anyf'))
+                quiet(0.6); before = (runs('filt'), runs('anyf'), runs('onef'))
                 open(os.path.join(src, 'a.txt'), 'w').write('a%d\n' % seq); target = 'filt'
+            elif op == 'file_modify':
+                open(os.path.join(d, 'conf', 'settings.ini'), 'w').write('s%d\n' % seq); target = 'onef'
+            elif op == 'file_rename_over':
+                # atomic save of the declared file: written elsewhere, renamed over it (a new inode under the declared path)
+                tmp = os.path.join(d, 'elsewhere', 's.%d' % seq)
+                open(tmp, 'w').write('s%d\n' % seq)
+                os.replace(tmp, os.path.join(d, 'conf', 'settings.ini')); target = 'onef'
+            elif op == 'file_sibling':
+                open(os.path.join(d, 'conf', 'other.ini'), 'w').write('o%d\n' % seq)
             elif op == 'any_modify':
                 open(os.path.join(d, 'any', 'x'), 'w').write('x%d\n' % seq); target = 'anyf'
             elif op == 'any_create_tmpname_not':
@@ -581,15 +598,15 @@ def filter_scenario(rng, n_ops=10, tag='wf', ops=None):
                 open(os.path.join(d, 'any', '.zinoma', 'w%d' % seq), 'w').write('t\n')
             log.append(op)
             if target:
-                idx = 0 if target == 'filt' else 1
+                idx = ['filt', 'anyf', 'onef'].index(target)
                 if not wait_runs(target, before[idx] + 1, 5):
                     V.setdefault('C16', []).append('operation %r (#%d) on a declared input did not trigger %s within 5s (ops so far: %s)'
                                                    % (op, seq, target, log))
                     break
                 after = quiet(0.6)
-                other = 1 - idx
-                if after[other] != before[other]:
-                    V.setdefault('C16', []).append('operation %r (#%d) triggered the unrelated target too' % (op, seq))
+                if any(after[o] != before[o] for o in range(3) if o != idx):
+                    V.setdefault('C16', []).append('operation %r (#%d) triggered an unrelated target too: runs %s -> %s'
+                                                   % (op, seq, before, after))
             else:
                 after = quiet(0.8)
                 if after != before:
@@ -597,7 +614,7 @@ def filter_scenario(rng, n_ops=10, tag='wf', ops=None):
                                                    % (op, seq, before, after, log))
         if proc.poll() is not None:
             V.setdefault('C16', []).append('zinoma --watch exited with %s' % proc.returncode)
-        obs = {'ops': log, 'runs': (runs('filt'), runs('anyf'))}
+        obs = {'ops': log, 'runs': (runs('filt'), runs('anyf'), runs('onef'))}
         return obs, V
     finally:
         try:
